@@ -281,7 +281,7 @@ def run(driver_name, tier, seed, quiet=False):
         json.dump(ev, f, indent=1, sort_keys=True, default=repr)
     # vacuity guards
     vac = getattr(driver, "vacuity", None)
-    if vac is not None:
+    if vac is not None and not agg["extra"].get("stopped_early_after_violations"):
         msg = vac(agg, tier)
         if msg:
             sys.stderr.write("HARNESS ERROR (vacuous exploration): %s\n" % msg)
